@@ -134,11 +134,32 @@ struct Target {
     want: Want,
 }
 
+/// The explorer replays prefixes and requires the call log of a replay to match, so a run must be a
+/// function of the schedule alone.  If the library's read() pattern turns out to depend on what
+/// earlier loads left behind on a pooled thread (detected below: two default runs, or a replayed
+/// prefix, differ), FRESH is set and every schedule runs on a thread of its own from then on (slow:
+/// a thread per run).  The dependence itself is not judged here; what a FAILED load leaves behind is
+/// explored on purpose in `after-failure` below and in C16's cross-load family.
+static FRESH: std::sync::atomic::AtomicBool = std::sync::atomic::AtomicBool::new(false);
+static DIVERGED: std::sync::atomic::AtomicBool = std::sync::atomic::AtomicBool::new(false);
+
 fn run_script(t: &Target, script: &[(usize, Ans)]) -> (Outcome, Vec<Call>, Option<(u8, u64)>) {
-    let mut rd = Scripted { data: &t.bytes, pos: 0, script, calls: Vec::new(), fail_executed: None, interrupts_in_a_row: 0 };
-    let r = catch_unwind(AssertUnwindSafe(|| AsepriteFile::read(&mut rd)));
-    let out = classify(r, &t.want);
-    (out, rd.calls, rd.fail_executed)
+    if !FRESH.load(Relaxed) {
+        let mut rd = Scripted { data: &t.bytes, pos: 0, script, calls: Vec::new(), fail_executed: None, interrupts_in_a_row: 0 };
+        let r = catch_unwind(AssertUnwindSafe(|| AsepriteFile::read(&mut rd)));
+        let out = classify(r, &t.want);
+        return (out, rd.calls, rd.fail_executed);
+    }
+    std::thread::scope(|s| {
+        s.spawn(|| {
+            let mut rd = Scripted { data: &t.bytes, pos: 0, script, calls: Vec::new(), fail_executed: None, interrupts_in_a_row: 0 };
+            let r = catch_unwind(AssertUnwindSafe(|| AsepriteFile::read(&mut rd)));
+            let out = classify(r, &t.want);
+            (out, rd.calls, rd.fail_executed)
+        })
+        .join()
+        .expect("run_script thread")
+    })
 }
 
 fn judge(ctx: &Ctx, fam: &str, t: &Target, script: &[(usize, Ans)], out: &Outcome, failed: Option<(u8, u64)>) {
@@ -176,8 +197,13 @@ fn explore(ctx: &Ctx, fam: &str, t: &Target, prefix: &[(usize, Ans)], parent_cal
     if let (Some(pc), Some((last, _))) = (parent_calls, prefix.last()) {
         let upto = (*last + 1).min(pc.len()).min(calls.len());
         if pc[..upto] != calls[..upto] {
-            eprintln!("machinery error: replay of prefix {:?} diverged", prefix);
-            std::process::exit(2);
+            if FRESH.load(Relaxed) {
+                eprintln!("machinery error: replay of prefix {:?} diverged", prefix);
+                std::process::exit(2);
+            }
+            // pooled-thread state reaches the read() pattern: this family is redone on fresh threads
+            DIVERGED.store(true, Relaxed);
+            return;
         }
     }
     ctx.eval(calls.len() as u64);
@@ -372,8 +398,14 @@ pub fn run(ctx: &Ctx) -> i32 {
             continue;
         }
         // determinism: the default schedule replayed twice gives identical call logs
-        let (o1, c1, _) = run_script(t, &[]);
-        let (_o2, c2, _) = run_script(t, &[]);
+        let (mut o1, mut c1, _) = run_script(t, &[]);
+        let (_o2, mut c2, _) = run_script(t, &[]);
+        if c1 != c2 && !FRESH.load(Relaxed) {
+            FRESH.store(true, Relaxed);
+            ctx.note("the library's read() call pattern depends on earlier loads on the same thread: every schedule is run on a thread of its own");
+            (o1, c1, _) = run_script(t, &[]);
+            (_, c2, _) = run_script(t, &[]);
+        }
         if c1 != c2 || !matches!(o1, Outcome::Ok(_)) {
             eprintln!("machinery error: default schedule is not deterministic / does not load");
             return 2;
@@ -400,6 +432,15 @@ pub fn run(ctx: &Ctx) -> i32 {
         firsts.par_iter().for_each(|d| {
             explore(ctx, &fam, t, &[*d], Some(&calls), b, &nsched, &npoints);
         });
+        if DIVERGED.swap(false, Relaxed) && !FRESH.load(Relaxed) {
+            // redo this family with every schedule on a thread of its own
+            FRESH.store(true, Relaxed);
+            ctx.note("a replayed prefix diverged on a pooled thread: schedules are run on threads of their own from here on");
+            let (_, calls, _) = run_script(t, &[]);
+            firsts.par_iter().for_each(|d| {
+                explore(ctx, &fam, t, &[*d], Some(&calls), b, &nsched, &npoints);
+            });
+        }
         ctx.family(&fam, nsched.load(Relaxed), &format!("{} ({} bytes, {} read() calls on the default schedule): all schedules with <= {} non-default answers over every read() call (short read of 1 / ceil(n/2) / n-1 bytes, transient Interrupted (max 3 in a row), hard error of 8 kinds); {} choice points visited", t.name, t.bytes.len(), calls.len(), b, npoints.load(Relaxed)), true);
         if ti == 0 {
             ctx.sample(json!({"family": fam, "schedule": "[(3, Short(0)), (17, Fail(4))]", "meaning": "the 4th read() call returns one byte only; the 18th read() call fails with TimedOut; expected: Err(IoError) carrying exactly that error"}));
@@ -597,6 +638,65 @@ pub fn run(ctx: &Ctx) -> i32 {
             });
         }
         ctx.family("error-shapes", n, &format!("every read() call of the default schedule (before the end of the last frame) fails with each of {} errors: all 38 stable io::ErrorKind values other than Interrupted, each built with a custom error payload / a message payload / no payload, and 15 raw OS error codes; load must return IoError holding exactly that error (kind, OS code, payload), also through source()", fails.len()), true);
+    }
+
+    // (6) what a failed load leaves behind: on one fresh thread, a load that fails at read() call k
+    // (hard error, or end of input), then a clean load of the same bytes and of another target
+    if ctx.wants_family("after-failure") {
+        let mut n = 0u64;
+        let small: Vec<&Target> = targets.iter().filter(|t| t.bytes.len() < 100_000).collect();
+        for (ti, t) in small.iter().enumerate() {
+            let (_, calls, _) = run_script(t, &[]);
+            let ncalls = calls.iter().take_while(|c| t.bytes.len() - c.remaining < t.end).count();
+            let other = small[(ti + 1) % small.len()];
+            n += ncalls as u64 * 2;
+            (0..ncalls * 2).into_par_iter().for_each(|k| {
+                let (ci, how) = (k / 2, k % 2);
+                let case = || format!("{} fails at read() call #{} ({}), then clean loads of {} and {}", t.name, ci, if how == 0 { "hard error" } else { "end of input" }, t.name, other.name);
+                if !ctx.wants("after-failure", &case) {
+                    return;
+                }
+                let res: Result<(), (String, String)> = std::thread::scope(|s| {
+                    s.spawn(|| {
+                        // the failing load
+                        let r = catch_unwind(AssertUnwindSafe(|| {
+                            if how == 0 {
+                                let mut rd = FailAtCall { data: &t.bytes, pos: 0, calls: 0, at: ci, kind: ErrorKind::Other, shape: Shape::Token, tok: 77, failed: false };
+                                AsepriteFile::read(&mut rd).map(|_| ())
+                            } else {
+                                // end of input exactly where that call would have started
+                                let cut = t.bytes.len() - calls[ci].remaining;
+                                AsepriteFile::read(&t.bytes[..cut]).map(|_| ())
+                            }
+                        }));
+                        match r {
+                            Ok(Err(_)) => {}
+                            Ok(Ok(())) => return Err(("error-swallowed".to_string(), "the failing load returned a sprite".to_string())),
+                            Err(_) => return Err((format!("panic:{}", sig_of(&observe::take_panic())), "the failing load panicked".to_string())),
+                        }
+                        // clean loads on the same thread
+                        for (tt, label) in [(*t, "the same file"), (other, "another file")] {
+                            let r = catch_unwind(AssertUnwindSafe(|| AsepriteFile::read(&tt.bytes[..])));
+                            match classify(r, &tt.want) {
+                                Outcome::Ok(d) if d == tt.baseline => {}
+                                Outcome::Ok(_) => return Err(("result-differs-after-failed-load".to_string(), format!("a clean load of {} after the failed load gives a different sprite", label))),
+                                Outcome::Err(e) => return Err((format!("spurious-error-after-failed-load:{}", err_variant(&e)), format!("a clean load of {} after the failed load fails: {}", label, e))),
+                                Outcome::Panic(m) => return Err((format!("panic:{}", sig_of(&m)), format!("a clean load of {} after the failed load panics: {}", label, m))),
+                            }
+                        }
+                        Ok(())
+                    })
+                    .join()
+                    .expect("after-failure thread")
+                });
+                ctx.eval(3);
+                ctx.outcome(hash64(&("after-failure", how, res.is_ok())));
+                if let Err((sig, detail)) = res {
+                    ctx.violation(Violation { family: "after-failure".into(), case: case(), sig, detail, bytes: Some(t.bytes.clone()), extra: json!({}) });
+                }
+            });
+        }
+        ctx.family("after-failure", n, "on a thread of its own: a load that fails at read() call k (hard I/O error / end of input), for every k before the end of the last frame of every small target, followed on the same thread by a clean load of the same bytes and of another target; both must give their baseline sprite", true);
     }
     ctx.note("arbitrary partitions beyond uniform sizes and <= d deviations are not covered (2^(len-1) partitions)");
     ctx.finish()
